@@ -116,6 +116,13 @@ Record fixes := {
 }.
 Definition fixed : fixes := {| fx_intro := true; fx_spread := true; fx_resolve := true; fx_roots := true; fx_dirs := true |}.
 
+(** the pinned code at exactly one place *)
+Definition pinned_intro : fixes := {| fx_intro := false; fx_spread := true; fx_resolve := true; fx_roots := true; fx_dirs := true |}.
+Definition pinned_spread : fixes := {| fx_intro := true; fx_spread := false; fx_resolve := true; fx_roots := true; fx_dirs := true |}.
+Definition pinned_resolve : fixes := {| fx_intro := true; fx_spread := true; fx_resolve := false; fx_roots := true; fx_dirs := true |}.
+Definition pinned_roots : fixes := {| fx_intro := true; fx_spread := true; fx_resolve := true; fx_roots := false; fx_dirs := true |}.
+Definition pinned_dirs : fixes := {| fx_intro := true; fx_spread := true; fx_resolve := true; fx_roots := true; fx_dirs := false |}.
+
 (** ** schema.New's acceptance checks *)
 
 Definition is_output (k : kind) : bool := match k with KInput => false | _ => true end.
@@ -545,6 +552,14 @@ Fixpoint cexec (obj : name) (c : list cnode) (log : list (name * name)) : prog (
         | _ => Ret (log, FSkipped)
         end)
   end.
+
+(** graphql.ParseAndValidate on a chain query *)
+Definition chain_validate (c : list cnode) : prog (list nat) :=
+  Ask (QRoot RQuery) (fun ar =>
+    match ar with
+    | AHandle (Some q) => cval 0 (Some q) c
+    | _ => Ret []
+    end).
 
 (** graphql.Execute on a chain query: validate; if there is no error, execute on the query type *)
 Definition chain_prog (c : list cnode) : prog (list nat * option (list (name * name) * cfinal)) :=
